@@ -487,3 +487,39 @@ Proof.
   - apply check_safe_trace_complete. now apply (append_is_safe refs partitioned rgs md cmd tr).
   - now apply (wf_append_trace refs partitioned rgs md cmd).
 Qed.
+
+(* ================= find_max_part that ignores foreign-named references (repo fix 59b66a8) ================= *)
+Lemma part_ids_skip_in refs q m : In q refs -> part_id q = Some m -> In m (part_ids_skip refs).
+Proof.
+  induction refs as [|p r IH]; intros Hin Hm; [destruct Hin|]. cbn [part_ids_skip].
+  destruct Hin as [E|Hin].
+  - subst p. rewrite Hm. now left.
+  - destruct (part_id p); [right|]; now apply IH.
+Qed.
+
+Lemma find_max_part_skip_bound refs q m : In q refs -> part_id q = Some m -> m < find_max_part_skip refs.
+Proof.
+  intros Hin Hm. pose proof (part_ids_skip_in refs q m Hin Hm) as H. unfold find_max_part_skip.
+  destruct (part_ids_skip refs) as [|n l]; [destruct H|].
+  destruct (fold_max_ge l n) as [H1 H2]. destruct H as [H|H]; [subst; lia|].
+  rewrite Forall_forall in H2. specialize (H2 m H). lia.
+Qed.
+
+(* FRESH NAMES for ANY list of referenced paths (named part.<i>.parquet or not): the file of row group i of an append, in any
+   newline-free directory, is none of them *)
+Theorem fresh_names_skip refs d i : good_dir d = true -> ~ In (join d (part_name (find_max_part_skip refs + i))) refs.
+Proof.
+  intros Hd Hin. pose proof (find_max_part_skip_bound refs _ _ Hin (part_id_join d _ Hd)). lia.
+Qed.
+
+Lemma part_ids_skip_all refs l : part_ids refs = Some l -> part_ids_skip refs = l.
+Proof.
+  revert l. induction refs as [|p r IH]; intros l H; cbn in *; [now inversion H|].
+  destruct (part_id p); [|discriminate]. destruct (part_ids r) as [l'|]; [|discriminate]. inversion H. now rewrite (IH l' eq_refl).
+Qed.
+
+Theorem skip_agrees refs off : find_max_part refs = Some off -> find_max_part_skip refs = off.
+Proof.
+  unfold find_max_part, find_max_part_skip. destruct (part_ids refs) as [l|] eqn:E; [|discriminate].
+  rewrite (part_ids_skip_all refs l E). destruct l; intros H; now inversion H.
+Qed.
